@@ -263,27 +263,12 @@ def nontrivial(case, verdict):
     return _has_nonzero(case["t"], case["d"]) and (case["d"] >= 2 or case["fmts"] != "U")
 
 
-def _b_drops_shape(case):
-    """a B rank with a U or B rank somewhere below it whose imposed extent differs from the tensor's"""
-    if not case["ish"]:
-        return False
-    f = case["fmts"]
-    for i, x in enumerate(f):
-        if x == "B":
-            for k in range(i + 1, len(f)):
-                if f[k] in "UB" and case["ish"][k] != case["tshape"][k]:
-                    return True
-    return False
-
-
 def signature(case, verdict, failed):
     """classification of a failing case for known_findings.json"""
     asp = case["aspect"]
     tags = set(verdict.get("tags", []))
     why = verdict.get("why", "")
     if failed == ["spec"]:
-        if asp == "decode" and "layoutDiffers" in tags and _b_drops_shape(case) and verdict.get("agree"):
-            return "decode:B-rank-drops-imposed-shape"
         if asp == "size" and why.startswith("size:assert") and "sizeAssertOnlyEmpty" in tags:
             return "size:assert-on-empty-fiber"
         if asp == "scan" and why.startswith("scan:C-over-U") and "scanOnlyCoverU" in tags:
